@@ -8,6 +8,8 @@ VARIABLE k
 Fails(c) ==
   SortRel(c.shuffled, c.sorted, c.edge_start, c.site_start, c.mutation_start)
   \cup (IF c.idem = 1 THEN {} ELSE {"sort_not_idempotent"})
+  \* the same shuffle with metadata removed from a random subset of rows (ragged metadata column): whole rows permuted, same order
+  \cup (IF c.ragged_ok = 1 THEN {} ELSE {"sort_with_ragged_metadata_not_a_row_permutation"})
   \cup (IF c.canon_skip = 1 \/ c.canon_same = 1 THEN {} ELSE {"canonicalise_depends_on_row_order"})
   \cup (IF c.repair_skip = 1 THEN {} ELSE
         LET o == c.orig r == c.repaired IN
